@@ -1,19 +1,15 @@
 // impl_run: runs the real crate on the line protocol of DESIGN.md 4.2 and prints canonical observables.
 use expression_engine::verif_hooks;
 use expression_engine::{ExprAST, InfixOpAssociativity, InfixOpType, Value};
-use rust_decimal::Decimal;
 use std::io::{BufRead, Write};
 use std::panic::{catch_unwind, AssertUnwindSafe};
 use std::sync::Arc;
 
 mod proto;
 use proto::*;
+mod hist;
 
-fn pr_dec(d: &Decimal) -> String {
-    let m = d.mantissa().unsigned_abs();
-    let neg = d.is_sign_negative() && m != 0;
-    format!("n({},{:x},{})", if neg { 1 } else { 0 }, m, d.scale())
-}
+use hist::pr_dec;
 
 fn pr_ast(e: &ExprAST) -> String {
     use verif_hooks::Literal;
@@ -142,21 +138,32 @@ fn run_op(op: &str) -> String {
         ["LEX", h] => op_lex(&unhex(h)),
         ["PARSE", h] => op_parse(&unhex(h)),
         ["RT", h] => op_rt(&unhex(h)),
-        ["REGI", name, prec, setter, right, _hid] => {
-            let p = parse_hex_i64(prec) as i32;
-            let ty = if *setter == "1" { InfixOpType::SETTER } else { InfixOpType::CALC };
-            let assoc = if *right == "1" { InfixOpAssociativity::RIGHT } else { InfixOpAssociativity::LEFT };
-            expression_engine::register_infix_op(&unhex(name), p, ty, assoc, Arc::new(|_, _| Ok(Value::None)));
+        ["H", hid, ..] => {
+            let script_text = op.splitn(3, ':').nth(2).unwrap_or("");
+            let sc = hist::p_script(&mut hist::Cur::new(script_text));
+            hist::world().lock().unwrap().scripts.insert(hid.parse().unwrap(), sc);
             "-".to_string()
         }
-        ["REGP", name, _hid] => {
-            expression_engine::register_prefix_op(&unhex(name), Arc::new(|_| Ok(Value::None)));
+        ["REGI", name, prec, setter, right, hid] => {
+            hist::register_infix(&unhex(name), parse_hex_i64(prec) as i32, *setter == "1", *right == "1", hid.parse().unwrap());
             "-".to_string()
         }
-        ["REGS", name, _hid] => {
-            expression_engine::register_postfix_op(&unhex(name), Arc::new(|_| Ok(Value::None)));
+        ["REGP", name, hid] => { hist::register_prefix(&unhex(name), hid.parse().unwrap()); "-".to_string() }
+        ["REGS", name, hid] => { hist::register_postfix(&unhex(name), hid.parse().unwrap()); "-".to_string() }
+        ["REGF", name, hid] => { hist::register_function(&unhex(name), hid.parse().unwrap()); "-".to_string() }
+        ["CV", c, name, ..] => {
+            let vt = op.splitn(4, ':').nth(3).unwrap_or("N");
+            let v = hist::p_value(&mut hist::Cur::new(vt));
+            hist::ctx(c.parse().unwrap()).set_variable(&unhex(name), v);
             "-".to_string()
         }
+        ["CF", c, name, hid] => { hist::set_ctx_func(c.parse().unwrap(), &unhex(name), hid.parse().unwrap()); "-".to_string() }
+        ["EXEC", c, h] | ["EXECUTE", c, h] => {
+            let (r, dead) = hist::op_exec(c.parse().unwrap(), unhex(h), parts[0] == "EXECUTE");
+            if dead { DEAD.store(true, std::sync::atomic::Ordering::SeqCst); }
+            r
+        }
+        ["CD", c] => guarded(|| hist::pr_ctx(c.parse().unwrap())),
         ["SD", kind, name] => {
             op_sd(kind, unhex(name));
             "-".to_string()
@@ -165,15 +172,28 @@ fn run_op(op: &str) -> String {
     }
 }
 
+static DEAD: std::sync::atomic::AtomicBool = std::sync::atomic::AtomicBool::new(false);
+
 fn needs_fresh_process(ops: &[&str]) -> bool {
-    ops.iter().any(|o| o.starts_with("REG") || o.starts_with("SD:"))
+    ops.iter().any(|o| o.starts_with("REG") || o.starts_with("SD:") || o.starts_with("H:") || o.starts_with("CF:"))
 }
 
 fn run_line_here(line: &str) -> String {
+    {
+        let mut w = hist::world().lock().unwrap_or_else(|e| e.into_inner());
+        w.scripts.clear(); w.log.clear(); w.ctxs.clear(); w.ctx_funcs.clear();
+    }
     let mut it = line.split(' ');
     let id = it.next().unwrap_or("");
     let ops: Vec<&str> = it.collect();
-    let res: Vec<String> = ops.iter().map(|o| run_op(o)).collect();
+    let mut res: Vec<String> = Vec::new();
+    for o in ops.iter() {
+        if DEAD.load(std::sync::atomic::Ordering::SeqCst) {
+            res.push("SKIP".to_string());
+        } else {
+            res.push(guarded(|| run_op(o)));
+        }
+    }
     format!("{} {}", id, res.join(" "))
 }
 
@@ -263,6 +283,10 @@ fn main() {
         let _ = writeln!(out, "{}", res);
         if one {
             let _ = out.flush();
+        }
+        if DEAD.load(std::sync::atomic::Ordering::SeqCst) {
+            let _ = out.flush();
+            std::process::exit(0);
         }
     }
     let _ = out.flush();
